@@ -327,18 +327,17 @@ Proof.
   intros Hi F Hm R1 Hv Hb.
   assert (Fce : hget (chdr x1) K_CE = None) by (destruct F as (_&_&_&_&_&_&_&_&_&F10); exact F10).
   unfold errors_mw. rewrite Hi.
+  rewrite R1, andb_true_r.
   destruct m as [| | |pages generic]; [congruence| | |].
-  - rewrite andb_false_r, R1.
+  - rewrite andb_false_r.
     destruct (error_page_answers et EPlain ret x1 F Hv Hb) as (y & E & A). rewrite E. eauto.
-  - destruct err.
-    + change (true && true) with true. cbv iota.
-      destruct (write3 x1 (hset (chdr x1) K_CT V_TEXT) ret (errmsg ep ret) F) as (y & E & A); try assumption.
+  - destruct err; cbn [andb].
+    + destruct (write3 x1 (hset (chdr x1) K_CT V_TEXT) ret (errmsg ep ret) F) as (y & E & A); try assumption.
       { hsimp. exact Fce. }
       rewrite E. eauto.
-    + change (false && true) with false. cbv iota. rewrite R1.
-      destruct (error_page_answers et EDebug ret x1 F Hv Hb) as (y & E & A). rewrite E.
+    + destruct (error_page_answers et EDebug ret x1 F Hv Hb) as (y & E & A). rewrite E.
       exists y, false. split; [reflexivity|]. exact A.
-  - rewrite andb_false_r, R1.
+  - rewrite andb_false_r.
     destruct (error_page_answers et (EPages pages generic) ret x1 F Hv Hb) as (y & E & A). rewrite E. eauto.
 Qed.
 
@@ -690,15 +689,11 @@ Proof.
 Qed.
 
 Lemma errors_pass et ep m inner x r e y :
-  inner x = HRet r e y -> (400 <=? r) = false -> (e = false \/ m <> EDebug) ->
+  inner x = HRet r e y -> (400 <=? r) = false ->
   errors_mw et ep m inner x = HRet r e y.
 Proof.
-  intros Hi Hr He. unfold errors_mw. rewrite Hi.
-  destruct m as [| | |pages generic]; try reflexivity.
-  - rewrite andb_false_r, Hr. reflexivity.
-  - destruct He as [He|He]; [|congruence]. subst e. change (false && true) with false. cbv iota.
-    rewrite Hr. reflexivity.
-  - rewrite andb_false_r, Hr. reflexivity.
+  intros Hi Hr. unfold errors_mw. rewrite Hi.
+  destruct m as [| | |pages generic]; try reflexivity; rewrite Hr, ?andb_false_r; reflexivity.
 Qed.
 
 Lemma apply_sets_templates sets m X :
@@ -717,12 +712,11 @@ Proof. destruct x; reflexivity. Qed.
 Lemma written_streamed et c path ae sets s ws ret err :
   forallb set_ok sets = true -> status_rule c path = None ->
   valid_code s = true -> bodyless s = false -> ret < 400 ->
-  (err = false \/ eff_errors c <> EDebug) ->
   should_buffer (tmode_of c path) (hs_fun sets []) = false ->
   let x := serve et c path ae (sets ++ OWh s :: map wop_op ws) ret err in
   cm x = Some s /\ sup x = 0%nat /\ view x = (false, wbody ws).
 Proof.
-  intros Hs Hr Hv Hb Hret Herr Hsb.
+  intros Hs Hr Hv Hb Hret Hsb.
   assert (R1 : (400 <=? ret) = false) by lia.
   unfold serve, chain. rewrite Hr. unfold status_mw.
   set (act := c_gzip c && ae). set (hd := c_header c). set (m := tmode_of c path) in *.
@@ -787,7 +781,7 @@ Proof.
       pose proof (inv3_answered s acc1 y1 Hb I1) as A. rewrite C1 in A. cbn [concat app] in A.
       replace act with (gz_on y1); [exact A|]. rewrite Gy1, Gy0. destruct act, hd; reflexivity. }
   destruct Hscript as (y & Hy & A).
-  pose proof (errors_pass et (eff_path c path) (eff_errors c) _ _ ret err y Hy R1 Herr) as He.
+  pose proof (errors_pass et (eff_path c path) (eff_errors c) _ _ ret err y Hy R1) as He.
   exact (outer_passes et (c_log c) act hd _ ret err y s _ He R1 A).
 Qed.
 
@@ -846,13 +840,12 @@ Qed.
 Lemma written_buffered et c path ae sets s ws ret err :
   forallb set_ok sets = true -> status_rule c path = None ->
   valid_code s = true -> bodyless s = false -> ret < 400 ->
-  (err = false \/ eff_errors c <> EDebug) ->
   should_buffer (tmode_of c path) (hs_fun sets []) = true ->
   (ret < 300 -> err = false -> contains (wbody ws) TPL_OPEN = false) ->
   let x := serve et c path ae (sets ++ OWh s :: map wop_op ws) ret err in
   cm x = Some s /\ sup x = 0%nat /\ view x = (false, wbody ws).
 Proof.
-  intros Hs Hr Hv Hb Hret Herr Hsb Htpl.
+  intros Hs Hr Hv Hb Hret Hsb Htpl.
   assert (R4 : (400 <=? ret) = false) by lia.
   assert (R5 : (ret <? 400) = true) by lia.
   unfold serve, chain. rewrite Hr. unfold status_mw.
@@ -860,7 +853,7 @@ Proof.
   pose proof (fresh_entry act hd) as F0. pose proof (entry_gz act hd) as G0.
   assert (Hm : m <> TOff) by (intro Q; rewrite Q in Hsb; discriminate Hsb).
   assert (Hscript : exists r e y, templates_mw m (probe (sets ++ OWh s :: map wop_op ws) ret err) (entry act hd) = HRet r e y
-                              /\ (400 <=? r) = false /\ (e = false \/ eff_errors c <> EDebug) /\ answered s (wbody ws) act y).
+                              /\ (400 <=? r) = false /\ answered s (wbody ws) act y).
   { rewrite (templates_mw_on _ _ _ Hm). unfold templates_on.
     rewrite (probe_buffered m sets s ws ret err (entry act hd) Hm Hs Hsb).
     set (Y := set_b _ m true false s (hs_fun sets []) (wbody ws)).
@@ -891,7 +884,7 @@ Proof.
       { unfold h3. match goal with |- context [match ?e with _ => _ end] => destruct e end; hsimp; exact HC. }
       destruct (buffered_out Y h3 s (wbody ws) FY H3 Hv Hb) as (z & Ez & Az).
       cbv zeta. fold h3. rewrite Ez. exists 0, false, z. rewrite GY in Az. auto. }
-  destruct Hscript as (r & e & y & Hy & R & E & A).
-  pose proof (errors_pass et (eff_path c path) (eff_errors c) _ _ r e y Hy R E) as He.
+  destruct Hscript as (r & e & y & Hy & R & A).
+  pose proof (errors_pass et (eff_path c path) (eff_errors c) _ _ r e y Hy R) as He.
   exact (outer_passes et (c_log c) act hd _ r e y s _ He R A).
 Qed.
